@@ -17,7 +17,7 @@ Theorem C12_negative :
   forall (A : Type) (st : state A) (o : op) (q : nat) (n : Z),
     (o = OLimit q n \/ o = ODrop q n \/ o = OTail q n \/ o = OTake q n \/ o = OTee q n) ->
     (n < 0)%Z -> q < length st ->
-    step A st o = (st, [EvValueError]).
+    fstep A st o = (st, [EvValueError]).
 Proof. exact negative_refused. Qed.
 Print Assumptions C12_negative.
 
